@@ -83,6 +83,16 @@ turned out to be the check's fault; none is listed as a known finding.
   actor names made the provider flag ambiguous (now carried in the event);
   the count of Restarted events at shutdown depended on the shutdown race (the
   count clause was removed, order clauses stay).
+* C05 (found by the thorough tier, 1 in ~600 000 racing cases each): a second
+  ActorOf under a live name runs OnPrelaunch first and normally fails with
+  AlreadyExists - unless the first life ends in between, then that instance is
+  the next life (its OnLaunch comes without a further hook); and a successful
+  OnPrelaunch after the predecessor's own OnKilled does not mean the spawn
+  succeeds, because the path is only freed in the clean-up that follows. The
+  state machine now accepts both, and "OnLaunch missing" is judged against the
+  number of ActorOf calls that returned a reference.
+* C02: the package watchdog took a 200 000-case pure ring run for a hang
+  (inconclusive, thorough tier only); the ring tests now feed it.
 * C08: the reference model diverged on cascades and concurrent failures (9.2);
   consultations of the library's default strategy are invisible to the probe
   strategy and are not expected in the trace.
@@ -150,6 +160,8 @@ its history (checked by replaying both histories with either fix alone).
 | C07-2 / C07-3 / C07-4 | misbehaving trees, timed-out stops, remoting | the tree and remoting units, goroutine count after timed-out stops (this found KF-C07-3) |
 | C04-4 | askers that terminate through an abandoned or failed restart or a supervisor's Stop | four more death paths in the generator |
 | C10-4 | named spawns that collide | named top-level and child spawns from all goroutines (this found KF-C10-2), registry-empty check after Stop |
+| C09-3 | what a failed actor does before its supervisor has decided | clause "suspended until the decision" (sequential cases; windows with another decision in between are not judged) |
+| C06-3 | clean-up code that spawns a child while the actor is already terminating | `LateSpawn` probes in C06 and the C07 tree unit |
 | C03-3 | whether a "stashed" message is really in the stash | white-box stash length for undisturbed actors, stash-burst shape (m stashed, Unstash(n) for every relation of n to m) |
 
 ### 9.5 Known findings (genuine, not repaired) and why they are not small
@@ -190,7 +202,7 @@ def main():
             out.append(f"| {f['id']} | {f['property']} | `{f['signature'].replace('|', chr(92)+'|')}` |")
     # seeds
     out.append("\n### 9.8 Sensitivity: seeded changes and which check catches them\n")
-    out.append("Fresh sub-agents (given one property's text and a scratch worktree, nothing from /verif) produced changes that compile, pass the existing suite and break the property; each was confirmed here (demonstration passes on the current HEAD, fails with the change; `tools/revalidate_seeds.sh` repeats that after every fix commit). `tools/try_all_seeds.sh` applies each to /repo, runs the property's registered quick command and reverts. 'caught by' is the first signature reported.\n")
+    out.append("Fresh sub-agents (given one property's text and a scratch worktree, nothing from /verif) produced changes that compile, pass the existing suite and break the property; each was confirmed here (demonstration passes on the current HEAD, fails with the change; `tools/revalidate_seeds.sh` repeats that after every fix commit). `tools/try_all_seeds.sh` applies each to a scratch worktree of /repo's HEAD and runs the property's registered quick command against that tree (`VERIF_REPO`). Two rounds of agents were run for most properties; second-round agents frequently re-invented a first-round change (the swapped provider/behaviour reset, the escalation-chain loop variable, the unlocked GetOrCreate, the hoisted completed-check of a future): such duplicates are stored like the others when their demonstration differs, and dropped when the patch is identical (C05 round 2). 'caught by' is the first signature reported.\n")
     rows = {}
     mp = f"{V}/seeded/MATRIX.tsv"
     if os.path.exists(mp):
